@@ -875,8 +875,9 @@ pub fn generate(seed: u64, base: &Cfg) -> Program
                 let gc_after = matches!(wop, WOp::DropSysRc(_));
                 // a system inserted into an entity, called, inserted *again* into the same entity (a new registration: fresh state,
                 // possibly another function) and called again
-                // the strip variants hide their own polls from the trace: a collection and a poll in front leave nothing else pending
-                if matches!(wop, WOp::ReactorBulk(_, m) if m >= 2) { steps.push(Step::Direct(WOp::Gc)); steps.push(Step::Direct(WOp::Poll)); }
+                // the strip variants hide their own polls from the trace: a collection and two polls in front leave nothing else pending
+                // (the second poll is for what the closing flush of the first one's reactions may cause: ruling A7)
+                if matches!(wop, WOp::ReactorBulk(_, m) if m >= 2) { steps.push(Step::Direct(WOp::Gc)); steps.push(Step::Direct(WOp::Poll)); steps.push(Step::Direct(WOp::Poll)); }
                 let again = match wop { WOp::InsertSys(k, s, key) if k < 2 && g.r.chance(50) => Some((k, s, key)), _ => None };
                 steps.push(Step::Direct(wop));
                 if gc_after { steps.push(Step::Direct(WOp::Gc)); }
